@@ -114,6 +114,48 @@ mod verif_kani {
 }
 '''
 
+KZG_KEY = "src/commitment_scheme/kzg10/key.rs"
+
+TWIN_KZG_KEY = r'''
+#[cfg(any(kani, test))]
+mod verif_kani {
+    #![allow(dead_code, unused_imports)]
+    use super::*;
+
+    const P: [u64; 6] = [0xb9feffffffffaaab, 0x1eabfffeb153ffff, 0x6730d2a0f6b0f624, 0x64774b84f38512bf, 0x4b1ba7b6434bacd7, 0x1a0111ea397fe69a];
+
+    /// c (48 bytes, six little-endian u64 limbs) < p, decided by the borrow of the 384-bit subtraction c - p
+    fn below_modulus(c: &[u8]) -> bool {
+        let mut borrow: u128 = 0;
+        let mut i = 0;
+        while i < 6 {
+            let mut l = [0u8; 8];
+            l.copy_from_slice(&c[8 * i..8 * i + 8]);
+            let limb = u64::from_le_bytes(l) as u128;
+            let sub = P[i] as u128 + borrow;
+            borrow = if limb < sub { 1 } else { 0 };
+            i += 1;
+        }
+        borrow == 1
+    }
+
+    /// meaning of raw_point_is_canonical: 97 bytes, flag byte 0 or 1, both coordinates below the base-field modulus
+    pub(super) fn check_raw_point_is_canonical(chunk: [u8; 97]) {
+        let want = chunk[96] <= 1 && below_modulus(&chunk[0..48]) && below_modulus(&chunk[48..96]);
+        assert!(raw_point_is_canonical(&chunk) == want, "TWIN-VIOLATION raw_point_is_canonical: differs from (flag <= 1 && x < p && y < p)");
+        assert!(!raw_point_is_canonical(&chunk[..96]), "TWIN-VIOLATION raw_point_is_canonical: accepts a short chunk");
+    }
+
+    #[cfg(kani)]
+    #[kani::proof]
+    #[kani::unwind(8)]
+    fn twin_raw_point_is_canonical() {
+        check_raw_point_is_canonical(kani::any());
+    }
+//@REPLAY@
+}
+'''
+
 TWINS = {
     # Verus unit name -> twin
     "compress.PackedCircuitReader::unpack_array_len": {
@@ -134,7 +176,14 @@ TWINS = {
         "complete_because": "loop-free checked arithmetic over every usize",
     },
 }
-MODULE_SRC = {"compress": TWIN_COMPRESS}
+TWINS["kzg.raw_point_is_canonical"] = {
+    "file": KZG_KEY, "module": "kzg_key", "harness": "twin_raw_point_is_canonical", "check": "check_raw_point_is_canonical",
+    "inputs": [("chunk", "[u8; 97]")],
+    "complete_because": "all 97-byte chunks; the loops have fixed trip counts (6 limbs, 2 coordinates), unwound to 8 with unwinding assertions on",
+}
+MODULE_SRC = {"compress": TWIN_COMPRESS, "kzg_key": TWIN_KZG_KEY}
+# twins that give MEANING to a predicate a ring/trace contract uses by name (run in the thorough tier of these properties)
+PROPERTY_TWINS = {"C17": ["kzg.raw_point_is_canonical"]}
 
 
 def twins_for_units(units):
@@ -149,7 +198,7 @@ def _prepare(names, replay_tests=""):
         by_file.setdefault(t["file"], t["module"])
     for rel, mod in by_file.items():
         with open(os.path.join(root, rel), "a") as f:
-            f.write(MODULE_SRC[mod].replace("//@REPLAY@", replay_tests))
+            f.write(MODULE_SRC[mod].replace("//@REPLAY@", replay_tests if any(TWINS[n]["module"] == mod for n in names) else ""))
     return root
 
 
